@@ -75,7 +75,9 @@ static void c06_case(int packed, int len, int idi)
     int tail = placement ? 64 : 0;
     uint8_t* msg = place_msg(&gA, total, &tail);
     uint8_t* pre = msg - 16;
-    uint8_t* src = gB.hi - len - g_src_shift;   /* payload source: exact extent when the shift is 0 */
+    uint8_t* src = gB.hi - len - (g_src_shift & 3);   /* payload source: exact extent when the shift is 0 */
+    if (g_src_shift == 4) src = msg + hdr;       /* the payload is already in place: source == destination */
+    if (g_src_shift == 5) src = NULL;            /* an empty payload given as (NULL, 0) */
     uint8_t fillb = fill ? 0xA5 : 0xFF;
     static uint8_t exp[16 + 24 + 2100 + 96];
     for (int i = 0; i < 16; i++) pre[i] = (uint8_t)(0x3C + i);
@@ -92,7 +94,7 @@ static void c06_case(int packed, int len, int idi)
     for (int i = 0; i < len; i++) src[i] = c06_pay(pat, i, len);
     memcpy(exp, pre, (size_t)(16 + total + tail));
     uint8_t* em = exp + 16;
-    memcpy(em + hdr, src, (size_t)len);
+    if (len) memcpy(em + hdr, src, (size_t)len);
     memset(em + hdr + len, 0, (size_t)pad);
     rset(em, fld(fmt, "acf_msg_length"), (uint64_t)(total / 4));
     rset(em, fld(fmt, "pad"), (uint64_t)pad);
@@ -154,6 +156,8 @@ static void suite_c06(void)
             for (int idi = 0; idi < C06_NIDS; idi++) {
                 /* short payloads from caller buffers of every alignment */
                 if (len <= 8 && idi < 2) for (g_src_shift = 1; g_src_shift < 4; g_src_shift++) c06_case(packed, len, idi);
+                if (idi < 2 && !((packed >> 10) & 1)) { g_src_shift = 4; c06_case(packed, len, idi); }
+                if (len == 0 && idi < 2) { g_src_shift = 5; c06_case(packed, len, idi); }
                 g_src_shift = 0;
                 if (len > 72 && idi >= 8 && !(g_thorough && (idi & 7) == (len & 7))) { if (!g_thorough) break; else continue; }
                 if (g_lite && idi >= 8 && (idi & 7) != (len & 7)) continue;
@@ -339,6 +343,7 @@ int main(int argc, char** argv)
 {
     const char* suite = "", *csarg = NULL;
     for (int i = 1; i < argc; i++) {
+        if (!strcmp(argv[i], "--worldinfo")) { printf("model=%llu big=%llu\n", (unsigned long long)w_world_model(), (unsigned long long)w_world_id()); return 0; }
         if (!strcmp(argv[i], "--suite")) suite = argv[++i];
         else if (!strcmp(argv[i], "--tier")) { i++; g_thorough = !strcmp(argv[i], "thorough"); g_lite = !strcmp(argv[i], "lite"); }
         else if (!strcmp(argv[i], "--off")) g_off = atoi(argv[++i]) & 15;
